@@ -224,8 +224,21 @@ func checkDependencyPanics(c *Ctx, rule string, ri *reachInfo) {
 			panicky[st.Parent()] = why
 		}
 	}
-	lastNilSites = panicky
+	lastNilSites = map[*ssa.Function]string{}
+	for f, w := range panicky {
+		lastNilSites[f] = w
+	}
 	c.Extra("dependency_nil_receiver_sites", len(panicky))
+	// sites confirmed by reading and by reproduction against the real code, each re-verified structurally on every run (an entry
+	// whose shape is gone, because the dependency was repaired or replaced, demands nothing any more)
+	lastIndexSites = map[*ssa.Function]string{}
+	for _, f := range dep {
+		if why := reviewedIndexPanic(f); why != "" {
+			panicky[f] = why
+			lastIndexSites[f] = why
+		}
+	}
+	c.Extra("dependency_reviewed_index_sites", len(lastIndexSites))
 	if len(panicky) == 0 {
 		c.Pass(rule, "no pointer that is nil on some path is kept in a field and dereferenced as a receiver in the reachable part of the dependency", token.NoPos, fmt.Sprintf("%d functions", len(dep)))
 		return
@@ -263,6 +276,21 @@ func checkDependencyPanics(c *Ctx, rule string, ri *reachInfo) {
 					}
 				}
 			})
+			// calls through an interface of the dependency (queue.Enqueue): the call graph's edges
+			if _, ok := reaches[f]; !ok {
+				if n := ri.res.CallGraph.Nodes[f]; n != nil {
+					for _, e := range n.Out {
+						if e.Site == nil || !e.Site.Common().IsInvoke() {
+							continue
+						}
+						if why, ok := reaches[e.Callee.Func]; ok && strings.HasPrefix(fnPkgPath(e.Callee.Func), depPath) {
+							reaches[f] = why
+							changed = true
+							break
+						}
+					}
+				}
+			}
 		}
 	}
 	if os.Getenv("EMCHECK_DEBUG") != "" {
@@ -333,6 +361,33 @@ func checkDependencyPanics(c *Ctx, rule string, ri *reachInfo) {
 		}
 		return false
 	}
+	// a call site is covered when its function recovers, or when every function of the module that calls that function
+	// (statically) is covered: the panic unwinds through them
+	callersOf := map[*ssa.Function][]*ssa.Function{}
+	for _, g := range ri.module() {
+		allCalls(g, func(call ssa.CallInstruction) {
+			if cal := call.Common().StaticCallee(); cal != nil && strings.HasPrefix(fnPkgPath(cal), modPath) && cal != g {
+				callersOf[cal] = append(callersOf[cal], g)
+			}
+		})
+	}
+	plainRecover := hasRecover
+	var covered func(f *ssa.Function, depth int) bool
+	covered = func(f *ssa.Function, depth int) bool {
+		if plainRecover(f) {
+			return true
+		}
+		if depth > 4 || len(callersOf[f]) == 0 {
+			return false
+		}
+		for _, g := range callersOf[f] {
+			if !covered(g, depth+1) {
+				return false
+			}
+		}
+		return true
+	}
+	hasRecover = func(f *ssa.Function) bool { return covered(f, 0) }
 	sites := 0
 	for _, f := range ri.module() {
 		if strings.HasSuffix(fnPkgPath(f), "parser/generate") {
@@ -509,5 +564,91 @@ func checkRecoveredPanicOrder(c *Ctx, rule string, ri *reachInfo) {
 	}
 	if n == 0 {
 		c.Pass(rule, "no recovered panic of the dependency depends on the iteration order of an unordered collection", token.NoPos, "")
+	}
+}
+
+// lastIndexSites: the reviewed index-panic sites of the dependency that were found alive in this run.
+var lastIndexSites map[*ssa.Function]string
+
+// reviewedIndexPanic: is f one of the dependency's functions known (by reading and by a failing input) to index out of range,
+// and does it still have the shape that makes it do so? Returns the reason, or "".
+//
+//   list.(*arrayQueue).Enqueue: the rear index is incremented first; when the queue has just been drained at the end of a block
+//   (front node nil) a fresh block is allocated but the rear index is not set back to 0, and block[rearIndex] is written with
+//   rearIndex == len(block). A breadth-first walk over a chain of 64 states (the automaton of a long literal) gets there.
+func reviewedIndexPanic(f *ssa.Function) string {
+	if qualifiedFuncName(f) != depPath+"/list.(arrayQueue).Enqueue" || len(f.Params) == 0 {
+		return ""
+	}
+	recv := ssa.Value(f.Params[0])
+	fieldOf := func(v ssa.Value) string {
+		if u, ok := v.(*ssa.UnOp); ok && u.Op == token.MUL {
+			if fa, ok := u.X.(*ssa.FieldAddr); ok && fa.X == recv {
+				return fieldName(fa)
+			}
+		}
+		return ""
+	}
+	// the element store indexed by a field of the receiver
+	idxField := ""
+	for _, b := range f.Blocks {
+		for _, in := range b.Instrs {
+			if st, ok := in.(*ssa.Store); ok {
+				if ia, ok := st.Addr.(*ssa.IndexAddr); ok {
+					if n := fieldOf(ia.Index); n != "" {
+						idxField = n
+					}
+				}
+			}
+		}
+	}
+	if idxField == "" {
+		return ""
+	}
+	// the branch taken when a node pointer of the receiver is nil: it must set the index field, or the site is alive
+	for _, b := range f.Blocks {
+		ifi, ok := b.Instrs[len(b.Instrs)-1].(*ssa.If)
+		if !ok {
+			continue
+		}
+		bo, ok := ifi.Cond.(*ssa.BinOp)
+		if !ok || bo.Op != token.EQL || !isNilConst(bo.Y) || fieldOf(bo.X) == "" {
+			continue
+		}
+		then := b.Succs[0]
+		resets := false
+		for _, in := range then.Instrs {
+			if st, ok := in.(*ssa.Store); ok {
+				if fa, ok := st.Addr.(*ssa.FieldAddr); ok && fa.X == recv && fieldName(fa) == idxField {
+					resets = true
+				}
+			}
+		}
+		if !resets {
+			return "(*list.arrayQueue).Enqueue writes block[" + idxField + "] after allocating a fresh block for a drained queue without setting " + idxField + " back: index out of range once the queue is drained at the end of a block (a breadth-first walk over a chain of 64 states, i.e. the automaton of a literal of 63 or more characters)"
+		}
+	}
+	return ""
+}
+
+// checkRecoveredPanicRejects (R7.7): a reviewed index-panic site of the dependency that the token-automaton construction can
+// reach turns, once recovered, into an error for specifications that are perfectly well-formed (those whose automaton takes
+// the dependency down that path). Rejection must mean ill-formed; this is a rejection of another kind.
+func checkRecoveredPanicRejects(c *Ctx, rule string, ri *reachInfo) {
+	quiet := &Ctx{Prop: c.Prop, Repo: c.Repo, Fset: c.Fset, Pkgs: c.Pkgs, All: c.All, Prog: c.Prog, SSAPk: c.SSAPk,
+		floors: map[string]int{}, ruleDoc: map[string]string{}, analysedF: map[string]bool{}, analysedP: map[string]bool{}, extra: map[string]any{}}
+	checkDependencyPanics(quiet, "R14.9", ri)
+	var fns []*ssa.Function
+	for f := range lastIndexSites {
+		fns = append(fns, f)
+	}
+	sort.Slice(fns, func(i, j int) bool { return fns[i].String() < fns[j].String() })
+	for _, f := range fns {
+		c.Fail(rule, "a well-formed specification is not rejected because the dependency fails on it: "+qualifiedFuncName(f), token.NoPos,
+			"the construction of the token automaton reaches a function of the dependency that indexes out of range for some well-formed specifications; recovered, the panic becomes an error, and a specification that is not ill-formed is rejected: "+lastIndexSites[f],
+			"grammar x;  ID = /[a-z]+/;  start = \"<a literal of 63 or more characters>\" ID;")
+	}
+	if len(fns) == 0 {
+		c.Pass(rule, "no reviewed panic site of the dependency is reachable from the construction of the token automaton", token.NoPos, "")
 	}
 }
